@@ -401,6 +401,8 @@ def random_coeff(rng):
     if k == 2:
         return rng.randrange(-40, 41)
     if k == 3:
+        if rng.random() < 0.06:     # no bound on coefficient magnitudes in the syntax: hundreds of bits
+            return rng.choice([-1, 1]) * ((1 << rng.choice([63, 64, 128, 255, 256, 511, 512, 513, 514, 600, 1024])) - rng.randrange(0, 3))
         return rng.choice([-1, 1]) * ((1 << rng.randrange(1, 40)) - rng.randrange(0, 2))
     if k == 4:
         return rng.randrange(-(1 << 16), 1 << 16)
